@@ -205,11 +205,45 @@ def reduce_process_tree_to_preferred_logic_gates(
     """
     # remove first event and get subsequent tree
     logic_gate_tree: ProcessTree = process_tree.children[1]
+    # a loop found by the miner means "any combination of these events"
+    replace_loop_operators_with_or_gates(logic_gate_tree)
     # calculate OR gates
     process_or_gates(event_sets, logic_gate_tree)
     # process missing AND gates
     process_missing_and_gates(event_sets, logic_gate_tree)
     return logic_gate_tree
+
+
+def replace_loop_operators_with_or_gates(process_tree: ProcessTree) -> None:
+    """Method to replace the loop operators of a process tree by OR gates.
+    The inductive miner falls back to a loop (at worst the "flower" model, a
+    loop over an XOR of all events) when it finds no other structure in the
+    event sets. Read as a gate over successor sets a loop admits any non-empty
+    combination of the events below it, which is an OR gate over those
+    events; the AND gates below it are recovered afterwards as for any other
+    OR gate.
+
+    :param process_tree: The process tree.
+    :type process_tree: :class:`pm4py.objects.process_tree.obj.ProcessTree`
+    """
+    if (
+        process_tree.operator is not None
+        and process_tree.operator.value == Operator.LOOP.value
+    ):
+        labels = sorted(
+            {
+                label
+                for label in get_non_operator_successor_labels(process_tree)
+                if label is not None
+            }
+        )
+        process_tree.operator = Operator.OR
+        process_tree.children = [
+            ProcessTree(label=label, parent=process_tree) for label in labels
+        ]
+        return
+    for child in process_tree.children:
+        replace_loop_operators_with_or_gates(child)
 
 
 def process_or_gates(
